@@ -88,7 +88,16 @@ func (propC17) Gen(r *Rand) *Plan {
 	var ops []Op
 	var prev []int
 	for i := 0; i < nops; i++ {
-		switch r.Weighted([]int{10, 2, clearW, 4}) {
+		reW := 0
+		if target == "states" {
+			reW = 2
+		}
+		switch r.Weighted([]int{10, 2, clearW, 4, reW}) {
+		case 4:
+			// a registration made by a state while the tokenizer is at work (see "reenter" in Exec)
+			ch := c17Endpoint(r, prev)
+			prev = append(prev, ch)
+			ops = append(ops, Op{Op: "reenter", I: ch, J: r.Range(1, 3), S: r.Pick([]string{"A", "B", "B", "none", "clear"}), S2: r.Pick([]string{"comment", "comment", "unknown"})})
 		case 0:
 			a, b := c17Endpoint(r, prev), c17Endpoint(r, prev)
 			if r.Bool(0.3) {
@@ -133,11 +142,15 @@ func c17ProbesFor(ops []Op, i int) []int {
 	}
 	n := 0
 	for j := i; j >= 0 && n < 6; j-- {
-		if ops[j].Op != "add" {
+		if ops[j].Op != "add" && ops[j].Op != "reenter" {
 			continue
 		}
 		n++
-		for _, e := range []int{ops[j].I, ops[j].J} {
+		ends := []int{ops[j].I, ops[j].J}
+		if ops[j].Op == "reenter" {
+			ends = []int{ops[j].I}
+		}
+		for _, e := range ends {
 			for _, d := range []int{-2, -1, 0, 1, 2} {
 				add(e + d)
 			}
@@ -402,6 +415,82 @@ func (propC17) Exec(p *Plan, x *Ctx) *Outcome {
 				}
 				model.regs = nil
 				changes++
+			case "reenter":
+				// "disabling a range really disables it", also when the registration is made while the tokenizer is
+				// at work: the character o.I is given to a state that, when entered, registers o.I anew (o.S: state A,
+				// state B, none, or clears all states) on its own tokenizer and returns a token the tokenizer skips
+				// (a comment with SkipComments on; an unknown token with SkipUnknown on). In the input of 1+o.J such
+				// characters the first goes to that state; every later one must go where the registration made
+				// meanwhile says.
+				ch := o.I
+				if target != "states" || ch <= ' ' || ch > 0xFFFE || (ch >= 0xD800 && ch <= 0xDFFF) || o.J < 1 || o.J > 8 {
+					continue
+				}
+				to, skip := o.S, o.S2
+				if skip == "unknown" && to != "A" && to != "B" {
+					to = "B" // with unknown tokens skipped, an unregistered character leaves nothing to look at
+				}
+				entered := 0
+				sw := &c17Switch{do: func() int {
+					entered++
+					switch to {
+					case "A":
+						tk.SetCharacterState(rune(ch), rune(ch), stA)
+					case "B":
+						tk.SetCharacterState(rune(ch), rune(ch), stB)
+					case "clear":
+						tk.ClearCharacterStates()
+					default:
+						tk.SetCharacterState(rune(ch), rune(ch), nil)
+					}
+					if skip == "unknown" {
+						return tokenizers.Unknown
+					}
+					return tokenizers.Comment
+				}}
+				tk.SetCharacterState(rune(ch), rune(ch), sw)
+				tk.SetSkipComments(skip != "unknown")
+				tk.SetSkipUnknown(skip == "unknown")
+				text := ""
+				for k := 0; k <= o.J; k++ {
+					text += string(rune(ch))
+				}
+				toks := tk.TokenizeBuffer(text)
+				tk.SetSkipComments(false)
+				tk.SetSkipUnknown(false)
+				if to == "clear" {
+					model.regs = nil
+				} else {
+					model.regs = append(model.regs, c17Reg{ch, ch, "SW"}, c17Reg{ch, ch, to})
+				}
+				changes++
+				wantType := map[string]int{"A": 101, "B": 102}[model.lookup(ch)]
+				if wantType == 0 {
+					wantType = tokenizers.Unknown
+				}
+				var got []string
+				ok := entered == 1
+				n := 0
+				for _, t := range toks {
+					if t == nil || t.Type() == tokenizers.Eof {
+						continue
+					}
+					got = append(got, fmt.Sprintf("%d:%q", t.Type(), t.Value()))
+					if t.Type() != wantType || t.Value() != string(rune(ch)) {
+						ok = false
+					}
+					n++
+				}
+				if n != o.J {
+					ok = false
+				}
+				out.Probes["registration_made_while_tokenizing"]++
+				if !ok {
+					out.Violate("latest-registration", "C17/registered-while-tokenizing/"+skip+"/"+wantKind(to),
+						"op %d: U+%04X is registered for a state that, when entered, registers it anew (%s) and returns a skipped %s token; tokenizing %d such characters entered that state %d times and gave tokens %v, the registration made meanwhile says %d tokens of type %d",
+						i, ch, to, skip, o.J+1, entered, got, o.J, wantType)
+					return
+				}
 			case "lookup":
 				// explicit lookups are covered by checkAll; kept as history steps
 			default:
@@ -465,6 +554,15 @@ func wantKind(s string) string {
 		return "ref"
 	}
 	return s
+}
+
+// c17Switch is a tokenizer state that consumes one character, does something to its tokenizer
+// and returns a token of the type that action names.
+type c17Switch struct{ do func() int }
+
+func (m *c17Switch) NextToken(scanner sio.IScanner, tokenizer tokenizers.ITokenizer) *tokenizers.Token {
+	ch := scanner.Read()
+	return tokenizers.NewToken(m.do(), string(ch), scanner.Line(), scanner.Column())
 }
 
 // c17Marker is a tokenizer state that consumes one character and labels it.
